@@ -181,8 +181,18 @@ func (s *Sim) CheckSolvency(rt *rapid.T) {
 	}
 	// 2. everybody leaves, in a generated order
 	order := rapid.Permutation(positions).Draw(rt, "exitOrder")
+	boundLeft := 0
 	for _, p := range order {
-		if locked, _, err := k.PositionHasActiveUnderlyingLock(b.Ctx, p.PositionId); err == nil && locked {
+		locked, _, err := k.PositionHasActiveUnderlyingLock(b.Ctx, p.PositionId)
+		if err != nil {
+			rt.Fatalf("PositionHasActiveUnderlyingLock(#%d): %v", p.PositionId, err)
+		}
+		if bound := s.Known[p.PositionId].Bound(b.Ctx.BlockTime()); bound != locked {
+			rt.Fatalf("position %d: the module says bound-by-an-active-lock=%v, the history (lock %d, duration %s, unlocking since %v, now %v) says %v [history %v]", p.PositionId, locked, s.Known[p.PositionId].LockID, s.Known[p.PositionId].LockDur, s.Known[p.PositionId].UnlockAt, b.Ctx.BlockTime(), bound, s.Hist)
+		}
+		if locked {
+			s.class("exit-skipped-bound-position")
+			boundLeft++
 			continue
 		}
 		owner := p.Address
@@ -196,12 +206,13 @@ func (s *Sim) CheckSolvency(rt *rapid.T) {
 			rt.Fatalf("exit: position %d [%d,%d) liquidity %s cannot be fully withdrawn: %v [history %v]", p.PositionId, p.LowerTick, p.UpperTick, p.Liquidity, r.Err, s.Hist)
 		}
 	}
-	// 3. what is left is dust
+	// 3. what is left is dust (judged only when nobody had to stay behind a lock: their principal and rewards remain)
+	if boundLeft > 0 {
+		return
+	}
 	after, _ := k.GetConcentratedPoolById(b.Ctx, s.PoolID)
-	if left, _ := k.GetUserPositions(b.Ctx, chain.Actor(0), s.PoolID); len(left) == 0 {
-		if !after.GetCurrentSqrtPrice().IsZero() || !after.GetLiquidity().IsZero() {
-			rt.Fatalf("after everybody left the pool still has sqrt price %s / liquidity %s", after.GetCurrentSqrtPrice(), after.GetLiquidity())
-		}
+	if !after.GetCurrentSqrtPrice().IsZero() || !after.GetLiquidity().IsZero() {
+		rt.Fatalf("after everybody left the pool still has sqrt price %s / liquidity %s [history %v]", after.GetCurrentSqrtPrice(), after.GetLiquidity(), s.Hist)
 	}
 	ops := int64(s.LPOps + s.Claims + len(positions)*3 + s.Swaps*(s.MaxTicks+2) + 4)
 	// every accumulator update truncates fee/liquidity at 18 decimals (after scaling by 1e27 in the scaled
